@@ -121,6 +121,11 @@ type c06Step struct {
 	ClientGone bool   `json:"client_gone,omitempty"`           // the browser has gone: every Write of the reply fails (sso / idp_initiated)
 	Reconf     string `json:"reconfigure_sig_method,omitempty"`
 	ReconfMode string `json:"reconfigure_key_mode,omitempty"` // "" | key | signer
+	// SignFault (kind lib, external signer): the n-th signing operation of this emission fails (1: the assertion's, 2: the response's);
+	// the application then asks the same request object for its form once more
+	SignFault int `json:"signer_fails_at,omitempty"`
+	// ReqSubject: the (unsigned) request carries <saml:Subject><saml:NameID> naming this principal: a wish of the requester, never the authenticated identity
+	ReqSubject string `json:"request_subject_nameid,omitempty"`
 }
 
 // ---------------------------------------------------------------- registry / sessions
@@ -160,10 +165,22 @@ func (r *c06Registry) GetServiceProvider(_ *http.Request, id string) (*saml.Enti
 }
 
 // c06Signer hides the concrete key type: an "external signer".
-type c06Signer struct{ k crypto.Signer }
+// Its fault: the failAt-th Sign call since arm() returns an error (an HSM that is briefly unreachable).
+type c06Signer struct {
+	k crypto.Signer
+	f *c06SignFault
+}
 
+type c06SignFault struct{ calls, failAt, fired int }
+
+func (s c06Signer) arm(failAt int)           { s.f.calls, s.f.failAt = 0, failAt }
 func (s c06Signer) Public() crypto.PublicKey { return s.k.Public() }
 func (s c06Signer) Sign(r io.Reader, digest []byte, opts crypto.SignerOpts) ([]byte, error) {
+	s.f.calls++
+	if s.f.calls == s.f.failAt {
+		s.f.fired++
+		return nil, errors.New("signer: device unreachable (injected)")
+	}
 	return s.k.Sign(r, digest, opts)
 }
 
@@ -237,11 +254,11 @@ func c06Session(n int, s *c06Sess) (*saml.Session, []string) {
 	}
 	ses := &saml.Session{
 		ID: marker("sid", n), CreateTime: time.Date(1999, 12, 31, 23, 0, 0, 0, time.UTC), ExpireTime: time.Date(2000, 1, 2, 0, 0, 0, 0, time.UTC),
-		NameID: marker("nameid", n), NameIDFormat: s.Format,
+		NameID: mk("nameid"), NameIDFormat: s.Format,
 		Index: mk("index"), SubjectID: mk("subjectid"), UserName: mk("username"), UserEmail: mk("email"), UserCommonName: mk("cn"),
 		UserSurname: mk("sn"), UserGivenName: mk("givenname"), UserScopedAffiliation: mk("affiliation"), EduPersonPrincipalName: mk("eppn"),
 	}
-	own = append(own, ses.NameID, ses.ID)
+	own = append(own, ses.ID)
 	for j := 0; j < s.Groups; j++ {
 		v := marker("grp", n*10+j)
 		ses.Groups = append(ses.Groups, v)
@@ -382,6 +399,9 @@ func genEgress(g *Rng, tier string) *Plan {
 		if g.Bool(0.3) {
 			s.Format = Pick(g, "urn:oasis:names:tc:SAML:1.1:nameid-format:emailAddress", "urn:oasis:names:tc:SAML:2.0:nameid-format:persistent")
 		}
+		if g.Bool(0.2) {
+			s.Empty = append(s.Empty, "nameid") // a session provider that identifies the user through attributes only
+		}
 		k.Sessions = append(k.Sessions, s)
 	}
 	p := &Plan{Knobs: mustJSON(k)}
@@ -454,6 +474,12 @@ func genEgress(g *Rng, tier string) *Plan {
 		}
 		if st.Kind != "lib" && g.Bool(0.08) {
 			st.ClientGone = true
+		}
+		if st.Kind == "lib" && g.Bool(0.3) {
+			st.SignFault = 1 + g.Intn(2) // takes effect when the IdP signs through an external signer
+		}
+		if st.Kind != "idp_initiated" && g.Bool(0.2) {
+			st.ReqSubject = Pick(g, "admin@example.com", marker("nameid", (st.Session+1)%nses))
 		}
 		if len(p.Steps) > 0 && g.Bool(0.2) {
 			// an operator reconfigures the live IdP object between two emissions
@@ -600,10 +626,11 @@ func execEgress(t *testing.T, p *Plan) *Result {
 		reg.m[c06Entity(i)] = c06Descriptor(i, &k.SPs[i])
 	}
 	idpKey := rsaKeys[0]
+	signFault := &c06SignFault{}
 	idp := &saml.IdentityProvider{Certificate: idpKey.Cert, Logger: nullLog{}, MetadataURL: mustURL(c06IdPEntity), SSOURL: mustURL(c06IdPSSO),
 		ServiceProviderProvider: reg, SignatureMethod: k.SigMethod}
 	if k.KeyMode == "signer" {
-		idp.Signer = c06Signer{idpKey.Key}
+		idp.Signer = c06Signer{idpKey.Key, signFault}
 	} else {
 		idp.Key = idpKey.Key
 	}
@@ -644,7 +671,7 @@ func execEgress(t *testing.T, p *Plan) *Result {
 			switch st.ReconfMode {
 			case "signer":
 				k.KeyMode = "signer"
-				idp.Signer, idp.Key = c06Signer{idpKey.Key}, nil
+				idp.Signer, idp.Key = c06Signer{idpKey.Key, signFault}, nil
 			case "key":
 				k.KeyMode = "key"
 				idp.Signer, idp.Key = nil, idpKey.Key
@@ -713,6 +740,9 @@ func execEgress(t *testing.T, p *Plan) *Result {
 					case "neither":
 						ar.AssertionConsumerServiceURL = ""
 					}
+					if st.ReqSubject != "" {
+						ar.Subject = &saml.Subject{NameID: &saml.NameID{Format: "urn:oasis:names:tc:SAML:1.1:nameid-format:emailAddress", Value: st.ReqSubject}}
+					}
 					exp.requestID, exp.reqURL = ar.ID, ar.AssertionConsumerServiceURL
 					if st.Binding == "post" {
 						f := parseForm(string(ar.Post(st.Relay)))
@@ -764,6 +794,7 @@ func execEgress(t *testing.T, p *Plan) *Result {
 		var emitted *htmlForm
 		var raw2 string
 		clientGone := false
+		retried := false
 		code := 0
 		pan := any(nil)
 		at(ms(st.IdPSkewMs), func() {
@@ -797,7 +828,18 @@ func execEgress(t *testing.T, p *Plan) *Result {
 						emitted = f
 					}
 				case "lib":
-					_, form, err := libIssue(idp, hr, sessions[st.Session], nil)
+					signFault.calls, signFault.failAt = 0, 0
+					if st.SignFault > 0 && idp.Signer != nil {
+						signFault.failAt = st.SignFault
+					}
+					req, form, err := libIssue(idp, hr, sessions[st.Session], nil)
+					if err != nil && signFault.fired > 0 && signFault.failAt > 0 && req != nil && strings.HasPrefix(err.Error(), "binding:") {
+						// nothing was emitted; the device is back and the application retries on the request object it holds
+						signFault.failAt = 0
+						retried = true
+						form, err = req.PostBinding()
+					}
+					signFault.failAt, signFault.fired = 0, 0
 					if err == nil {
 						code = 200
 						emitted = &htmlForm{Action: form.URL, Method: "post", NForms: 1, Fields: map[string][]string{"SAMLResponse": {form.SAMLResponse}, "RelayState": {form.RelayState}}}
@@ -817,6 +859,10 @@ func execEgress(t *testing.T, p *Plan) *Result {
 		}
 		if st.IdPSkewMs != 0 || st.SPSkewMs != 0 {
 			res.fire("clock_skew")
+		}
+		if retried {
+			res.fire("signer-error+retry-on-same-request")
+			head += " (signer failed once; retried)"
 		}
 		if clientGone && pan == nil {
 			res.fire("client-gone")
